@@ -513,13 +513,16 @@ class Charge:
         id_list : Sequence of int
             List of particle ids: ``[0, 12, 321]``
         """
+        had_particles: bool = not self._frame.empty
+
         if id_list:
             # TODO: Check carefully if 'inplace' is needed. This could break lot of things.
             self._frame.query(f"index not in {id_list}", inplace=True)
         else:
             self._frame = self.EMPTY_FRAME.copy()
 
-        if self._frame.empty:
+        if had_particles and self._frame.empty:
             # No particle left: '_array' may still hold an earlier conversion of the
-            # removed particles (see property 'array')
+            # removed particles (see property 'array').
+            # Without particles '_array' holds the charges added as arrays: keep them.
             self._array = np.zeros_like(self._array)
